@@ -163,3 +163,11 @@ def page_fails(vc):
     vc.check('post/rows-before-the-failure-exactly-once', rows == want)
     vc.check('post/the-page-error-is-raised-not-swallowed', end is not None and end is fut.ghost.get('fault'))
     vc.check('post/paging-state-still-points-at-the-failed-page', fut.attrs['_paging_state'] == states[kk - 1])
+
+
+# the request for a later page on the wire: the paging state has to sit where the server reads it (between the page size and the serial consistency).
+# Same contract as C03's QUERY/EXECUTE harnesses, re-discharged here for the option combinations a next-page request carries.
+from contracts import c03_requests as _C03
+for _pv in (2, 3, 4, 5, 0x42):
+    _C03._mk_query_like('QUERY', _pv, prop='C18', opt_fn=_C03.next_page_options, label='next-page-')
+    _C03._mk_query_like('EXECUTE', _pv, prop='C18', opt_fn=_C03.next_page_options, label='next-page-')
